@@ -120,6 +120,10 @@ class FnFx:
                     o = self.graph_owner(v.value)
                     if o:
                         self._set(self.payload_alias, t.id, o, "payload alias")
+                if isinstance(t, ast.Name) and isinstance(v, ast.Call):
+                    o = self.payload_owner(v)
+                    if o:
+                        self._set(self.payload_alias, t.id, o, "payload alias")
                 if isinstance(t, ast.Subscript) and isinstance(v, ast.Name):
                     o = self.graph_owner(t.value)
                     if o:
@@ -136,6 +140,33 @@ class FnFx:
                     for a in n.args:
                         if isinstance(a, ast.Name) and a.id not in self.graph_alias and self._is_payload_local(a.id):
                             self._set(self.payload_alias, a.id, o, "payload alias")
+
+    def _copy_stores(self):
+        """ids of the subscript-store targets of this function whose stored value is, as a term, `.copy()` of the
+        slot's own previous content (`pairs = [(i, G[i].copy()) for i in ...]; for i, p in pairs: G[i] = p`)."""
+        if getattr(self, "_copy_store_ids", None) is None:
+            self._copy_store_ids = set()
+            try:
+                from .formula import extract
+                from . import termflow as tf
+
+                ex = extract(self.fx.prog, self.fi, copy_is_identity=False)
+                by_node = {}
+                for e in ex.events:
+                    if e.name == "store_sub" and len(e.args) == 3:
+                        base, idx, val = e.args
+                        va = val.as_atom() if isinstance(val, tf.Poly) else None
+                        ok = False
+                        if va is not None and va[0] == "mcall" and va[1] in ("copy", "__copy__") and isinstance(idx, tf.Poly):
+                            try:
+                                ok = va[2] == tf.Poly.atom(("sub", tf.vkey(base), idx.key())).key()
+                            except Exception:  # noqa
+                                ok = False
+                        by_node.setdefault(id(e.node), []).append(ok)
+                self._copy_store_ids = {k for k, v in by_node.items() if v and all(v)}
+            except Exception:  # noqa  (not interpretable: nothing is exempted)
+                self._copy_store_ids = set()
+        return self._copy_store_ids
 
     def _is_payload_local(self, name):
         """A local bound (only) by a TreeNode(...) construction."""
@@ -181,6 +212,15 @@ class FnFx:
     def payload_owner(self, e):
         if isinstance(e, ast.Subscript):
             return self.graph_owner(e.value)
+        if isinstance(e, ast.Call) and isinstance(e.func, ast.Attribute) and isinstance(e.func.value, ast.Name) and e.func.attr in getattr(self.fx, "tree_methods", {}):
+            # `tree._payload_of(node)`: a Tree method every return of which hands out a payload of its own graph
+            h = self.fx.tree_methods[e.func.attr]
+            me = self.fx.self_name(h)
+            rets = [r for r in walk_no_nested(h.node) if isinstance(r, ast.Return)]
+            if me is not None and rets and h is not self.fi:
+                hf = self.fx.fn(h)
+                if all(r.value is not None and isinstance(r.value, ast.Subscript) and hf.graph_owner(r.value.value) == me for r in rets):
+                    return e.func.value.id
         if isinstance(e, ast.Name) and e.id in self.payload_alias:
             return self.payload_alias[e.id]
         return None
@@ -262,6 +302,8 @@ class FnFx:
                         if o is not None:
                             if isinstance(n, ast.Assign) and len(flat) == 1 and is_copy_of_same_slot(t, val):
                                 continue
+                            if isinstance(n, ast.Assign) and len(flat) == 1 and id(t) in self._copy_stores():
+                                continue  # the same, spelt through locals: decided on the stored term
                             evs.append(Ev("LW", o, n, "payload replacement"))
                     elif isinstance(t, ast.Attribute) and t.attr in PAYLOAD_VALUE_ATTRS and not in_payload_cls:
                         o = self.payload_owner(t.value)
